@@ -626,6 +626,8 @@ func checkTypestate(w *World, r *Report, la *LockAnalysis) {
 			r.OK("R09.3", construct, a.Pos(), true, "disposed flag re-checked in the same critical section (Close sets it before touching the table)")
 		case nonnil && isReset && how == "nil":
 			r.OK("R09.3", construct, a.Pos(), true, "%s != nil re-checked in the same critical section, and Close assigns nil under the same lock", exprStr(a.Sel))
+		case !isReset && !holdsClosable(a.Field):
+			r.OK("R09.3", construct, a.Pos(), false, "Close never resets %s and it holds nothing Close has to dispose: there is no closed state of this table to respect", exprStr(a.Sel))
 		case nonnil:
 			r.Fail("R09.3", construct, a.Pos(), "the insertion is guarded by %s != nil, but Close does not assign nil to that field (it %s): an insertion that overlaps Close goes unnoticed", exprStr(a.Sel), map[bool]string{true: "only clears it", false: "leaves it"}[how == "clear"])
 		default:
@@ -895,4 +897,25 @@ func assignsNilThrough(info *types.Info, t *FuncInfo, p types.Object) bool {
 		return true
 	})
 	return found
+}
+
+// holdsClosable: the table's keys or elements are scopes or Disposables (things
+// Close has to get to); bookkeeping tables (locks, in-flight records) are not.
+func holdsClosable(fv *types.Var) bool {
+	check := func(t types.Type) bool {
+		if isNamedType(t, modPath, "Disposable") || isNamedType(t, modPath, "scope") || isNamedType(t, modPath, "Scope") {
+			return true
+		}
+		if b, ok := t.Underlying().(*types.Interface); ok && b.NumMethods() == 0 {
+			return true // any: may hold instances
+		}
+		return false
+	}
+	switch t := fv.Type().Underlying().(type) {
+	case *types.Map:
+		return check(t.Key()) || check(t.Elem())
+	case *types.Slice:
+		return check(t.Elem())
+	}
+	return false
 }
